@@ -27,7 +27,7 @@ def _is_empty_dict(e: ast.AST | None) -> bool:
         return False
     if isinstance(e, ast.Dict) and not e.keys:
         return True
-    return bool(norm.match(T("dict()"), e))
+    return norm.match(T("dict()"), e) is not None
 
 
 def _case_sites(fl: Flow, pred) -> list[Site]:
@@ -103,8 +103,11 @@ def infer_state(repo: Repo, chk: Check) -> None:
                 chk.ok("C07.loop-head", key + ":empty", s.where(), "returns the empty state")
                 continue
             loop = f"{owner}.parent_op()"
+            # an exhaustive scan of what the body MAY write (every setup op in it); the state inferred at the yield is a must-state
+            # (an intersection over branches) and says nothing about a field written on one path only
             body_dep = cone is not None and depends_on(
-                cone, "$l.body", "$l.regions", "$l.walk($_)", "all_setup_ops_in_region($l, $_)", binds={"l": loop}
+                cone, "all_setup_ops_in_region($l.body, $_)", "all_setup_ops_in_region($l, $_)", "$l.walk()", "$l.walk($_)", "$l.body.walk()", "$l.body.walk($_)",
+                "$l.regions", binds={"l": loop}
             )
             guarded = bool(
                 has_fact(s, ["not has_accfg_effects($l)", "not has_accfg_effects($l.body)"], {"l": loop})
@@ -115,8 +118,8 @@ def infer_state(repo: Repo, chk: Check) -> None:
                 key,
                 s.where(),
                 "loop-head state depends on the loop body (back edge)",
-                "the state assumed at the loop head does not depend on the loop body: a field written differently "
-                "inside the loop is still assumed on every later iteration",
+                "the state assumed at the loop head does not depend on a scan of every setup in the loop body: a field written differently "
+                "inside the loop (possibly on one path only, which a must-state inferred at the yield does not show) is still assumed on every later iteration",
                 [ast.unparse(cone)[:300]] if cone is not None else [],
             )
             # the meet over the body must be per write: a dictionary that accumulates the body's setups with
@@ -657,7 +660,11 @@ def weave(repo: Repo, chk: Check) -> None:
     n_nested = 0
     for test, body in _chain(chain_node):
         for st in body:
-            if not (isinstance(st, ast.Expr) and isinstance(st.value, ast.Call) and isinstance(st.value.func, ast.Name) and st.value.func.id == f.name):
+            # the op's regions woven from an empty state of their own (whether the returned state is dropped on the floor or looked at:
+            # it only holds what is still known at the END of the regions, not what was set up inside them)
+            own = [c for c in ast.walk(st) if isinstance(c, ast.Call) and isinstance(c.func, ast.Name) and c.func.id == f.name and len(c.args) >= 2
+                   and _is_empty_dict(c.args[1])]
+            if not own:
                 continue
             n_nested += 1
             shrinks = False
